@@ -165,6 +165,12 @@ def rand_case(rng, max_dim, empty_axis=False, all_zero=False, writer=None):
             'writer': writer or rng.choice(['to_hdf5', 'to_hdf5', 'biom_open', 'save_table'])}
     if rng.random() < 0.3:
         case['np_md'] = True          # the caller's numbers are numpy scalars (what pandas / a loaded table hold)
+    case['own_genby'] = rng.choice([None, None, 'an older tool 0.9', 'QIIME 1.9', ' '])
+    case['own_date'] = rng.choice([None, None, ['datetime', '2011-12-13T14:15:16.171819'], ['text', '2011-12-13T14:15:16'],
+                                   ['text', '24 Aug 2015, 10:15'], ['text', 'yesterday']])
+    case['date_arg'] = rng.random() >= 0.25       # without creation_date= the writer stamps the current time
+    if case['writer'] in ('to_hdf5', 'save_table') and rng.random() < 0.25:
+        case['userblock'] = rng.choice([512, 1024])
     if rng.random() < 0.3:
         case['prelude'] = True        # history across calls: an earlier to_hdf5 with custom format_fs for these categories
     if rng.random() < 0.3 and not any(isinstance(x, list) or x in ('transpose2', 'copy') for x in spec['layout'][1:]):
@@ -268,6 +274,13 @@ def build_table(case):
             d.data[s:e] = d.data[s:e][::-1].copy()
     t.table_id = spec.get('id')
     t.type = spec.get('type')
+    # what the table itself records about its origin (constructor arguments generated_by= / create_date=, or what a
+    # loader left there); to_hdf5 is ASKED what to write through its own arguments
+    if case.get('own_genby') is not None:
+        t.generated_by = case['own_genby']
+    od = case.get('own_date')
+    if od is not None:
+        t.create_date = datetime.datetime.fromisoformat(od[1]) if od[0] == 'datetime' else od[1]
 
     def gmd(g):
         return None if not g else {k: tuple(v) for k, v in g.items()}
@@ -324,26 +337,56 @@ def write_prelude(case):
             os.remove(path)
 
 
-def write_table(t, case, path):
+NOW = '<now>'
+
+
+def dated(case):
+    """is the writer given a creation_date= argument (else it stamps the current time)"""
+    return case.get('date_arg', True) and case.get('writer') not in ('convert', 'convert_cli')
+
+
+def write_table(t, case, path, genby=None):
+    """the case's write; `genby` overrides the generated-by argument (later generations use another one)"""
     if case.get('prelude'):
         write_prelude(case)
-    date = datetime.datetime.fromisoformat(case['date'])
+    genby = case['genby'] if genby is None else genby
+    kw = {'compress': case['compress']}
+    if dated(case):
+        kw['creation_date'] = datetime.datetime.fromisoformat(case['date'])
     w = case.get('writer', 'to_hdf5')
+    ub = {'userblock_size': case['userblock']} if case.get('userblock') else {}      # an HDF5 file may start with a user block
     if w == 'to_hdf5':
-        with h5py.File(path, 'w') as f:
-            t.to_hdf5(f, case['genby'], compress=case['compress'], creation_date=date)
+        with h5py.File(path, 'w', **ub) as f:
+            t.to_hdf5(f, genby, **kw)
     elif w == 'biom_open':
         from biom.util import biom_open
         with biom_open(path, 'w') as f:
-            t.to_hdf5(f, case['genby'], compress=case['compress'], creation_date=date)
+            t.to_hdf5(f, genby, **kw)
     elif w == 'save_table':
         from biom.parse import save_table
-        save_table(t, path, generated_by=case['genby'], compress=case['compress'], creation_date=date)
+        if ub:
+            with h5py.File(path, 'w', **ub) as f:
+                save_table(t, f, generated_by=genby, **kw)
+        else:
+            save_table(t, path, generated_by=genby, **kw)
     elif w == 'convert':
         from biom.cli.table_converter import _convert
         _convert(t, path, to_hdf5=True, table_type=case['spec'].get('type'))
     else:
         raise ValueError(w)
+
+
+def now_or(value):
+    """a creation date stamped by the writer itself: ['datetime', '<now>'] if it is a datetime close to the
+    current time, the value unchanged otherwise (so that anything else is seen)"""
+    if isinstance(value, list) and len(value) == 2 and value[0] == 'datetime':
+        try:
+            d = datetime.datetime.fromisoformat(value[1])
+            if d.tzinfo is None and abs((datetime.datetime.now() - d).total_seconds()) < 3600:
+                return ['datetime', NOW]
+        except ValueError:
+            pass
+    return value
 
 
 # ---------------------------------------------------------------- raw h5py view of a file
@@ -410,11 +453,8 @@ def raw_tree(path, mask_date=False):
     out['groups'].sort()
     if mask_date and 'creation-date' in out['attrs']:
         v = out['attrs']['creation-date']
-        try:
-            datetime.datetime.fromisoformat(v[1][2:])
-            out['attrs']['creation-date'] = ['str', 'u:<now>']
-        except Exception:
-            pass
+        if v[0] == 'str' and now_or(['datetime', v[1][2:]]) == ['datetime', NOW]:
+            out['attrs']['creation-date'] = ['str', 'u:' + NOW]
     return out, sorted(comp)
 
 
@@ -502,7 +542,7 @@ def source_content(case):
     return {'oids': list(s['oids']), 'sids': list(s['sids']),
             'mat': [[fbits(v) for v in row] for row in s['mat']] if c else [[] for _ in range(r)],
             'omd': md(s.get('omd')), 'smd': md(s.get('smd')), 'type': s.get('type') or None,
-            'id': s.get('id') or PLACEHOLDER, 'genby': case['genby'], 'date': ['datetime', case['date']],
+            'id': s.get('id') or PLACEHOLDER, 'genby': case['genby'], 'date': ['datetime', case['date'] if dated(case) else NOW],
             'ogmd': gm(s.get('ogmd')), 'sgmd': gm(s.get('sgmd'))}
 
 
